@@ -179,6 +179,17 @@ var c10Reqs = []c10Req{
 	{"GET", "/", "", false},
 	{"POST", "/v1/backends", "", false},
 	{"GET", "/v1/backends/add", "", false},
+	{"OPTIONS", "/v1/metrics", "", false},
+	{"OPTIONS", "/v1/backends", "", false},
+	{"OPTIONS", "/v1/backends/add", `{"name":"evil","address":"http://127.0.0.1:9"}`, true},
+	{"OPTIONS", "/v1/strategy", `{"strategy":"ip_hash"}`, true},
+	{"HEAD", "/v1/metrics", "", false},
+	{"HEAD", "/v1/backends", "", false},
+	{"PATCH", "/v1/strategy", `{"strategy":"ip_hash"}`, true},
+	{"TRACE", "/v1/backends", "", false},
+	{"CONNECT", "/v1/backends/remove", `{"name":"b0"}`, true},
+	{"get", "/v1/metrics", "", false},
+	{"PROPFIND", "/v1/backends", "", false},
 }
 
 func c10State(sys *Sys) string {
